@@ -35,6 +35,22 @@ pub fn run(args: &[String], out: &mut impl Write) {
                 }
             }
         }
+        "escape-list" => {
+            // code points on stdin (one per line), successors in args[1]
+            let succs: Vec<String> = serde_json::from_str(&args[1]).unwrap();
+            let stdin = std::io::stdin();
+            for line in stdin.lock().lines() {
+                let line = line.unwrap();
+                let Ok(cp) = line.trim().parse::<u32>() else { continue };
+                let Some(c) = char::from_u32(cp) else { continue };
+                for (i, s) in succs.iter().enumerate() {
+                    let mut t = String::new();
+                    t.push(c);
+                    t.push_str(s);
+                    writeln!(out, "{}", json!([cp, i, h::gen_lit_str(&t)])).unwrap();
+                }
+            }
+        }
         "lit" | "resolve" | "normalize" => {
             let stdin = std::io::stdin();
             for line in stdin.lock().lines() {
